@@ -30,6 +30,7 @@ structure Answer where
   altObj : Bool := true         -- the intermediate solutions carried objective values
   altChkFailed : Bool := false  -- some intermediate solution failed the solution check
   hasWarnings : Bool := false   -- GetWarnings() is non-empty
+  solViolates : Bool := false   -- the reported solution violates the model (the automatic solution check would warn)
   timesOpt : Bool := false
   timingOpt : Bool := false
 deriving Repr
